@@ -8,6 +8,7 @@ import (
 	"os"
 	"runtime"
 	"strconv"
+	"strings"
 	"time"
 
 	_ "github.com/anishathalye/porcupine"
@@ -154,7 +155,11 @@ func execScenario(sc *Scenario, verbose bool) *ExecOut {
 		}
 	}
 	if n := raceErrors() - raceBefore; n > 0 {
-		out.Viol = append(out.Viol, raceViolation(sc.Property))
+		rv := raceViolation(sc.Property)
+		abandoned := co.Res != nil && co.Res.Overrun
+		if !abandoned && !strings.Contains(rv.Sig, "in ?") { // (see cmdWorker)
+			out.Viol = append(out.Viol, rv)
+		}
 	}
 	return out
 }
@@ -280,8 +285,20 @@ func cmdWorker(args []string) int {
 			st.Samples = append(st.Samples, sc)
 		}
 		if n := raceErrors() - raceBefore; n > 0 {
-			co.Viol = append(co.Viol, raceViolation(p.Prop))
 			fatal = true
+			rv := raceViolation(p.Prop)
+			switch {
+			case co.Res != nil && co.Res.Overrun:
+				// the run was abandoned with tasks still parked: the scheduler reading their partial records races with
+				// them by construction. The no-progress violation is the verdict; this report is not about rux.
+			case strings.Contains(rv.Sig, "in ?"):
+				// one side of the report has no frame of package rux: the harness itself, not the router
+				fmt.Fprintf(os.Stderr, "ruxsim: race report without a rux frame on one side (harness):\n%s\n", rv.Detail)
+				w.Flush()
+				os.Exit(5)
+			default:
+				co.Viol = append(co.Viol, rv)
+			}
 		}
 		for _, v := range co.Viol {
 			enc.Encode(WorkerViol{Type: "viol", Run: run, Viol: v, Scenario: sc, Fatal: fatal})
